@@ -91,6 +91,14 @@ def _targeted():
                 "formals": [("x", None)], "locals": [("q", [], "")],
                 "body": [("assign", "q", [], ("lit", 5)), ("assign", "x", [], ("var", "q"))], "malformed": "",
                 "targeted": "shadowing-local-vs-module-variables"})
+    # strided section actuals (must be refused; if accepted, apply() maps x(k) onto contiguous elements)
+    sbody = [("do", "k", ("lit", 1), ("lit", 3), ("lit", 1), [("assign", "x", [("var", "k")], ("bin", "Add", ("lit", 10), ("var", "k")))])]
+    for tag, pre, sec in (("reversed", [], ("sec", "a", [("rng", ("lit", 8), ("lit", 1), ("lit", -1))])),
+                          ("variable", [("assign", "n", [], ("lit", 2))], ("sec", "a", [("rng", ("lit", 1), ("lit", 8), ("var", "n"))])),
+                          ("literal-one", [], ("sec", "a", [("rng", ("lit", 2), ("lit", 8), ("lit", 1))]))):
+        out.append({"outer": [], "own": [("i", []), ("n", []), ("t", []), ("a", [(1, 8)])],
+                    "caller": pre + [("call", "s", [sec])], "formals": [("x", [("assumed", None)])], "locals": [("k", [], "")],
+                    "body": sbody, "malformed": "", "targeted": "strided-section/" + tag})
     return out
 
 
